@@ -600,6 +600,10 @@ def run(ctx):
         findings, b_stats, groups = b_campaign(ctx, env)
         ctx.count(b_stats["comparisons"])
         ctx.notes["B_all_formats"] = dict(b_stats)
+        from .. import codecpairs       # every pair of the modelled stateful codecs (G.72x, NMS, GSM), two live handles, merged vs solo
+        cp_stats = codecpairs.run(ctx, env, [f for f in formats.writable_formats(ctx) if f.major != 0x16], findings)
+        ctx.count(cp_stats.get("comparisons", 0))
+        ctx.notes["B_codec_pairs"] = cp_stats
         seen = set()
         n_rep = 0
         for f in findings:
